@@ -235,7 +235,7 @@ def run(ck, m):
           'node although the primary counts it as replicated' % len(redis), d.loc(tgt))
     from props.C02 import increment_fn, remover_fn
     stores_ = {b.id for b in m.prog.user_bodies() if b.kind == 'fn' and b.argc == 5 and b.locals[3] == 'i32'
-               and b.locals[1] == 'std::string::String' and b.locals[4] == '&nundb::bo::Database'}
+               and core.is_str_ty(b.locals[1]) and b.locals[4] == '&nundb::bo::Database'}
     appliers = stores_ | {increment_fn(m).id, remover_fn(m).id} | {b.id for b in m.prog.user_bodies() if b.id.endswith('db_ops::remove_key')}
     for v in ('ReplicateSet', 'ReplicateRemove', 'ReplicateIncrement'):
         effs, raw = m.arm_effects(v)
@@ -307,7 +307,7 @@ def run(ck, m):
           'the forwarder sends only in the Primary arm of the member role (anchor predicate)', '%s:%s' % (fw.file, fw.line))
     # ---- (f) ---------------------------------------------------------------------------
     stores = [b for b in m.prog.user_bodies() if b.kind == 'fn' and b.argc == 5 and b.locals[3] == 'i32'
-              and b.locals[1] == 'std::string::String' and b.locals[4] == '&nundb::bo::Database']
+              and core.is_str_ty(b.locals[1]) and b.locals[4] == '&nundb::bo::Database']
     from props.C02 import increment_fn
     incf = increment_fn(m)
     nf = 0
